@@ -46,6 +46,12 @@ def gen_plan(rng, i: int, tier: str) -> dict:
             "delivery": rng.choice((None, {"mode": "rand", "seed": rng.getrandbits(16), "bias": rng.choice(("small", "header", "geo"))})),
             "latency_us": [rng.choice((1, 50)), rng.choice((100, 4000, 900000))], "use_dns": rng.random() < 0.3, "ops": [],
             "concurrent": rng.random() < 0.3}  # the async execution runs all operations at once (fresh cache each), the sync one in sequence
+    r2 = random.Random(plan["seed"])
+    if r2.random() < 0.15:
+        # a conforming but slow DC: one of its PDUs on every connection arrives after a pause (longer than the 5 s connect timeout in a
+        # third of these plans); both flavours must behave alike
+        plan["delivery"] = dict(plan["delivery"] or {"mode": "whole"}, gaps=[[r2.randrange(0, 3), 0, r2.choice((0.5, 3.0, 6.0))]])
+        plan["slow_dc"] = True
     n_ops = rng.randint(1, 6 if tier == "thorough" else 4)
     cur = gkdi.interval_of_filetime(now)
     for _ in range(n_ops):
@@ -118,6 +124,10 @@ def judge_one(plan, tr: P.Trace, fl: str):
     probes: t.Dict[str, int] = {}
     dc = tr.dc
 
+    slow = bool(plan.get("slow_dc"))
+    if slow:
+        probes["slow_dc"] = 1
+
     def V(clause, cond, detail, ot=None):
         et = ""
         if ot is not None and ot.outcome.kind != "ok":
@@ -132,6 +142,9 @@ def judge_one(plan, tr: P.Trace, fl: str):
         if ot.op["op"] not in ("protect", "unprotect"):
             continue
         gks = ot.getkeys
+        if slow and ot.outcome.kind == "raise" and isinstance(ot.outcome.exc, TimeoutError):
+            probes["timed_out_on_slow_dc"] = 1  # (a read timeout is policy, not fidelity; the flavours must still agree, see below)
+            continue
         if plan.get("_concurrent_now"):
             # the operations ran at once: attribute the DC's log entries by their arguments
             if ot.op["op"] == "unprotect":
@@ -241,7 +254,7 @@ class C17(common.Check):
             "current, corner, previous-L0 and DC-future positions, nonce and public-key mode, both layouts) against the reference DC with "
             "per-plan knobs: 4 hashes x {DH,P256,P384}, SIDs of 1..15 sub-authorities, domain/forest names 0..40 chars incl. non-ASCII, "
             "GKDI port, padding policy, header signing, envelope shape (L2 omitted at 31), DC clock skew, PRNG segmentation and latencies, "
-            "DNS discovery, security context (StubCtx 1..3 legs / real NTLM / real Negotiate). Each plan runs once per flavour; request log, "
+            "DNS discovery, a DC whose PDUs arrive after pauses of 0.5..6 s, security context (StubCtx 1..3 legs / real NTLM / real Negotiate). Each plan runs once per flavour; request log, "
             "results and sync-vs-async transcripts are judged; in 30% of the plans the async execution runs all operations at once (the "
             "conversations then interleave under the PRNG scheduler and are compared per connection) and a third execution runs them as "
             "caller threads using the sync API, pre-empted at PRNG-chosen line events inside dpapi_ng. Non-trivial = every plan; distinct = distinct plan.")
@@ -252,7 +265,7 @@ class C17(common.Check):
     assumptions = ["Kerberos is not simulated", "loopback TCP of the statement is replaced by the simulated transport",
                    "ept_map max_towers / handle / referent ids and alloc_hint are recorded, not judged"]
     required_fired = ("unprotect_ok", "protect_seed", "protect_public", "future_key", "non_member_unprotect", "dns", "real_ctx", "l2_omitted",
-                      "pos_corner", "prev_l0", "blob_pub", "concurrent_ops", "thread_ops", "thread_overlap")
+                      "pos_corner", "prev_l0", "blob_pub", "concurrent_ops", "thread_ops", "thread_overlap", "slow_dc")
 
     def cases(self, tier, seed):
         rng = prng.stream(seed, "C17")
